@@ -8,7 +8,7 @@ from checks import common
 from checks.c14 import bt
 
 PROP = "C13"
-LEVEL = "other"
+LEVEL = "proof"
 MODULE = "PropC13"
 THEOREMS = ["C13_snapshot_rollback_restores", "C13_snapshot_commit_keeps", "C13_replay_returns_cached",
             "C13_assert_consumes_nothing", "C13_not_consumes_nothing", "C13_ok_is_neutral",
